@@ -50,6 +50,7 @@ var props = map[string]*propInfo{
 	"C16": {},
 	"C19": {},
 	"C20": {},
+	"C18": {Instrumented: true, Extra: c18RacePhase, Replay: c18Replay},
 }
 
 func loadInfo(bin, id string, p *propInfo) error {
@@ -98,6 +99,10 @@ func writeEvidence(id, tier string, seed uint64, p *propInfo, a *aggregate, det 
 	}
 	if len(a.extra) > 0 {
 		cov["counters"] = a.extra
+	}
+	if len(a.scheds) > 0 {
+		cov["schedules_distinct"] = len(a.scheds)
+		cov["schedules_measure"] = "distinct hashes of the (task, yield site) sequence of a concurrent block"
 	}
 	if p.EnumSpace > 0 {
 		complete := a.enumerated >= p.EnumSpace*p.EnumRepeat
